@@ -286,6 +286,8 @@ def compare_history(h, mlines, ilines, in_projection):
     for i in range(n):
         ml, il = mlines[i], ilines[i]
         op = ml.split(" ", 1)[0]
+        if "UNMODELLED-LOAD" in ml:
+            continue      # decoder met a number beyond the model's cut-off: no claim about this one load
         if "UNMODELLED" in ml.split(" | ")[0]:
             return {"status": "unmodelled", "index": i, "compared": compared, "abs_only": abs_only}
         if "OUTOFFUEL" in ml.split(" | ")[0]:
